@@ -1,5 +1,6 @@
 import DynasmVerif.Generated.A64Dyn
 import DynasmVerif.Generated.RvDyn
+import DynasmVerif.Generated.RegDyn
 
 /-!
 # C04 — unencodable operands are rejected, never silently truncated or wrapped (aarch64 immediates)
